@@ -2,7 +2,7 @@
    Elements are Z (every Go integer type is a sub-range; the comparator theorems hold on all of Z), strings are
    byte lists, [less] is an arbitrary boolean relation unless hypotheses are stated. *)
 From VF Require Import C10.Model C10.SortModel C10.Spec C10.ProofsCmp C10.ProofsSearch C10.ProofsSpec C10.ProofsPerm
-  C10.ProofsInsertion C10.ProofsHeap C10.ProofsPartition C10.Check.
+  C10.ProofsInsertion C10.ProofsHeap C10.ProofsPartition C10.ProofsFrame C10.ProofsPartial C10.ProofsPivot C10.ProofsMain C10.Check.
 From Coq Require Import QArith Qabs Sorted.
 Local Open Scope Z_scope.
 
@@ -115,16 +115,47 @@ Theorem C10_partition_equal_post : forall less s a b pivot,
   (forall x, (mid <= x)%nat -> (x < b)%nat -> less p (getd d' x) = true) /\
   length d' = length d /\ (forall x, (x < a \/ b <= x)%nat -> getd d' x = getd d x) /\ sbad (snd r) = sbad s.
 Proof. exact partition_equal_post. Qed.
-(* FULL STATEMENT (not proved): for every strict weak order and every l,
-     StronglySorted (le less) (sd (sort_func less l)) /\ sbad (sort_func less l) = false, and the same with
-     stability for sort_stable_func.
-   PROVED PART: the inputs that pdqsort hands to insertion sort directly (n <= 12). *)
+(* historical partial statement, kept: the inputs that pdqsort hands to insertion sort directly (n <= 12);
+   subsumed by C10_sort_sorted below *)
 Theorem C10_sort_sorted_partial : forall less,
   (forall a b, less a b = true -> less b a = false) ->
   (forall a b c, less b a = false -> less c b = false -> less c a = false) ->
   forall l, (length l <= 12)%nat ->
   StronglySorted (le less) (sd (sort_func less l)) /\ sbad (sort_func less l) = false.
 Proof. intros less Ha Ht. exact (sort_func_short_sorted less Ha Ht). Qed.
+
+(* FULL STATEMENT for SortFunc / Sort (pdqsort): for every strict weak order (irreflexive, transitive, incomparability
+   transitive) and EVERY input list the model finishes without index panic with its own fuel (S n), and the
+   result is sorted (no inversion) and a permutation of the input. *)
+Theorem C10_sort_sorted : forall less, StrictWeakOrder less -> forall l,
+  let s := sort_func less l in
+  sbad s = false /\ SortedBy less (sd s) /\ Permutation l (sd s) /\
+  (forall i j, (i < j)%nat -> (j < length l)%nat -> less (nth j (sd s) 0) (nth i (sd s) 0) = false).
+Proof. intros less H l. exact (sort_func_sorted less (swo_asym less H) (swo_negtrans less H) l). Qed.
+(* the recursive worker on any sub-range, any limit / wasBalanced / wasPartitioned (so also the heapsort fallback
+   and breakPatterns paths), under the loop invariant Pre: data[a-1] <= data[a:b] *)
+Theorem C10_pdqsort_range : forall less, StrictWeakOrder less ->
+  forall fuel s a b limit wb wp,
+  (b - a < fuel)%nat -> (a <= b)%nat -> (b <= length (sd s))%nat -> Pre less (sd s) a b ->
+  let s' := pdqsort less fuel s a b limit wb wp in
+  sorted_range less (sd s') a b /\ length (sd s') = length (sd s) /\
+  (forall x, (x < a \/ b <= x)%nat -> getd (sd s') x = getd (sd s) x) /\ sbad s' = sbad s /\
+  Permutation (sd s) (sd s').
+Proof. intros less H. exact (pdqsort_spec less (swo_asym less H) (swo_negtrans less H)). Qed.
+(* partialInsertionSort: true only on a sorted range; always an in-place permutation of the range (under Pre) *)
+Theorem C10_partial_insertion : forall less, StrictWeakOrder less ->
+  forall s a b, (a < b)%nat -> (b <= length (sd s))%nat -> Pre less (sd s) a b ->
+  let r := partial_insertion_sort less s a b in
+  Fr a b s (snd r) /\ (fst r = true -> sorted_range less (sd (snd r)) a b).
+Proof. intros less H. exact (partial_insertion_sort_spec less (swo_asym less H) (swo_negtrans less H)). Qed.
+(* choosePivot returns an index of the range and writes nothing; breakPatterns / reverseRange permute in place *)
+Theorem C10_pivot_in_range : forall less s a b, (a < b)%nat -> (b <= length (sd s))%nat ->
+  (let r := choose_pivot less s a b in
+   sd (snd r) = sd s /\ sbad (snd r) = sbad s /\ (a <= fst (fst r))%nat /\ (fst (fst r) < b)%nat) /\
+  Fr a b s (break_patterns s a b) /\ Fr a b s (reverse_range s a b).
+Proof.
+  intros less s a b Hab Hb. split; [now apply choose_pivot_spec|]. split; [now apply break_patterns_Fr|now apply reverse_range_Fr].
+Qed.
 
 (* ---------- the verified output checkers that decide every observed sort result ---------- *)
 Theorem C10_sorted_perm_checker : forall less xs ys,
@@ -158,6 +189,11 @@ Proof.
   destruct Ea as [->|[->|[->|[->| ->]]]]; destruct Eb as [->|[->|[->|[->| ->]]]]; try lia; vm_compute; discriminate.
 Qed.
 
+Example C10_swo_nonvacuous : StrictWeakOrder lt_full /\ StrictWeakOrder lt_key.
+Proof.
+  split; constructor; unfold lt_full, lt_key; intros; rewrite ?Z.ltb_lt, ?Z.ltb_ge in *; lia.
+Qed.
+
 Print Assumptions C10_cmp_int.
 Print Assumptions C10_cmp_int_laws.
 Print Assumptions C10_cmp_string.
@@ -176,6 +212,10 @@ Print Assumptions C10_heapsort_sorted.
 Print Assumptions C10_partition_post.
 Print Assumptions C10_partition_equal_post.
 Print Assumptions C10_sort_sorted_partial.
+Print Assumptions C10_sort_sorted.
+Print Assumptions C10_pdqsort_range.
+Print Assumptions C10_partial_insertion.
+Print Assumptions C10_pivot_in_range.
 Print Assumptions C10_sorted_perm_checker.
 Print Assumptions C10_checker_orders.
 Print Assumptions C10_stable_checker.
